@@ -62,7 +62,7 @@ class C12(Prop):
         "wq_reset_while_pending_loses_wakeup", "wq_unrepaired_remove_loses_block",
         "codec_unpack5_pack5", "codec_unpack2_pack2", "codec_unpack2_pack5", "codec_packet_count", "codec_eod_last",
         "codec_unpack_chunk", "th_barrier", "th_counter", "th_no_lost_wakeup_master", "th_progress",
-        "loader_nload_largest_prefix", "loader_chunks_partition", "pipe_order", "pipe_eof_after_all", "pipe_lanes")]
+        "loader_nload_largest_prefix", "loader_chunks_partition", "pipe_order", "pipe_eof_after_all", "pipe_lanes", "pipe_no_deadlock", "pipe_buffers")]
     claimed = True
     level_text = ("Theorems for every schedule of one reader and any number of workers (one atomic step per mutex-protected region, spurious wake-ups allowed): "
                   "conservation and exclusivity of blocks, FIFO on both queues (history variables), counters in range and pendingWorkers = number of sleepers, "
@@ -200,10 +200,11 @@ class C12(Prop):
             size = rng.choice([1, 2, 3, 4, 5, 8])
             ops = ["wq create size=%d" % size]
             nb = 0
+            cap = size + 1 if rng.random() < 0.1 else size      # now and then hand in more blocks than the contract allows
             held = {}      # block -> holder
             for _ in range(rng.randrange(5, 40)):
                 r = rng.random()
-                if r < 0.2 and nb < size + 1:
+                if r < 0.2 and nb < cap:
                     nb += 1; ops.append("wq init b=%d" % nb)
                 elif r < 0.3: ops.append("wq remove")
                 elif r < 0.36: ops.append("wq reset")
@@ -333,9 +334,11 @@ class C12(Prop):
                     if r["inplace"] != "same" or len(ps) > max(1, (len(codes) + 5) // 6) or any(((p >> 31) & 1) != (i == len(ps) - 1) for i, p in enumerate(ps)):
                         return Failure("monitor", "pack: in-place result differs / too many packets / EOD bit misplaced: %r -> %r" % (op[:200], l[:200]))
             elif w[0] == "wq":
+                if w[1] == "create": size, ninit = int(a["size"]), 0
+                if w[1] == "init": ninit += 1
+                if ninit > size: continue        # more blocks than the queue size: outside the caller's contract (model and code still must agree)
                 if l.startswith("ok b=0"):
                     return Failure("monitor", "queue handed out NULL with eslOK: %r" % l)
-                if w[1] == "create": size = int(a["size"])
                 m = re.match(r"\S+(?: b=\d+)? \| (-?\d+) (-?\d+) (-?\d+) (\S+) (\S+)$", l)
                 if m:
                     if not (0 <= int(m.group(1)) <= size and 0 <= int(m.group(2)) <= size and int(m.group(3)) == 0) or ",0" in "," + m.group(4) or ",0" in "," + m.group(5):
